@@ -51,3 +51,46 @@ package trustpolicy
 //@ loop 2 invariant len(signatureVerification.Override) > 0
 //@ loop 2 invariant signatureVerification.VerificationLevel != "skip" && baseLevel == presetOf(signatureVerification.VerificationLevel)
 //@ loop 3 invariant baseLevel.Enforcement[TypeIntegrity] == ActionEnforce && len(signatureVerification.Override) > 0 && signatureVerification.VerificationLevel != "skip" && baseLevel == presetOf(signatureVerification.VerificationLevel)
+
+// ---- C09: structural validation (soundness direction: accepted ==> well-formed) ----
+
+//@ global invariant len(supportedOCIPolicyVersions) == 1 && supportedOCIPolicyVersions[0] == "1.0"
+//@ global invariant len(supportedBlobPolicyVersions) == 1 && supportedBlobPolicyVersions[0] == "1.0"
+
+//@ pure func validStoreType(s string) bool = s == "ca" || s == "signingAuthority" || s == "tsa"
+//@ pure func storesOK(ts []string) bool = forall(i, 0, len(ts), cutFound(ts[i], ":") && validStoreType(cutBefore(ts[i], ":")) && plainFileName(cutAfter(ts[i], ":")))
+//@ pure func identityOK(id string) bool = id != "" && (id != "*" ==> cutFound(id, ":") && (cutBefore(id, ":") == "x509.subject" ==> cutAfter(id, ":") != "" && dnAccepted(cutAfter(id, ":"))))
+//@ pure func identitiesOK(tis []string) bool = (len(tis) > 1 ==> !hasStr(tis, "*")) && forall(q, 0, len(tis), identityOK(tis[q]))
+//@ pure func coreOK(name string, sv SignatureVerification, ts []string, tis []string) bool = name != "" && presetOf(sv.VerificationLevel) != nil && (len(sv.Override) > 0 ==> sv.VerificationLevel != "skip" && forallkeys(k, sv.Override, legalOverride(k, sv.Override[k]))) && (sv.VerifyTimestamp == "" || sv.VerifyTimestamp == OptionAlways || sv.VerifyTimestamp == OptionAfterCertExpiry) && (sv.VerificationLevel == "skip" ==> len(ts) == 0 && len(tis) == 0) && (sv.VerificationLevel != "skip" ==> len(ts) > 0 && len(tis) > 0 && storesOK(ts) && identitiesOK(tis))
+
+//@ func isValidTrustStoreType
+//@ props C09
+//@ ensures[C09.store-type] result == validStoreType(s)
+//@ loop 1 invariant forall(i, 0, rangeindex+1, string(truststore.Types[i]) != s)
+//@ loop 1 exit-assert !validStoreType(s)
+
+//@ func validateTrustStore
+//@ props C09
+//@ ensures[C09.stores] result == nil ==> storesOK(trustStores)
+//@ loop 1 invariant forall(i, 0, rangeindex+1, cutFound(trustStores[i], ":"))
+//@ loop 1 invariant forall(i, 0, rangeindex+1, validStoreType(cutBefore(trustStores[i], ":")))
+//@ loop 1 invariant forall(i, 0, rangeindex+1, plainFileName(cutAfter(trustStores[i], ":")))
+
+//@ func validateOverlappingDNs
+//@ props C09
+//@ ensures[C09.no-overlap] result == nil ==> forall(i, 0, len(parsedDNs), forall(j, 0, len(parsedDNs), i != j ==> !subsetDN(parsedDNs[i].ParsedMap, parsedDNs[j].ParsedMap)))
+//@ loop 1 invariant forall(i, 0, rangeindex+1, forall(j, 0, len(parsedDNs), i != j ==> !subsetDN(parsedDNs[i].ParsedMap, parsedDNs[j].ParsedMap)))
+//@ loop 2 invariant forall(i, 0, rangeindex_L1+1, forall(j, 0, len(parsedDNs), i != j ==> !subsetDN(parsedDNs[i].ParsedMap, parsedDNs[j].ParsedMap)))
+//@ loop 2 invariant forall(j, 0, rangeindex+1, rangeindex_L1+1 != j ==> !subsetDN(parsedDNs[rangeindex_L1+1].ParsedMap, parsedDNs[j].ParsedMap))
+
+//@ func validateTrustedIdentities
+//@ props C09
+//@ ensures[C09.identities] result == nil ==> identitiesOK(tis)
+//@ ensures-local[C09.no-overlap] result == nil ==> forall(i, 0, len(parsedDNs), forall(j, 0, len(parsedDNs), i != j ==> !subsetDN(parsedDNs[i].ParsedMap, parsedDNs[j].ParsedMap))) && forall(q, 0, len(tis), tis[q] != "*" && cutBefore(tis[q], ":") == "x509.subject" ==> exists(t, 0, len(parsedDNs), parsedDNs[t].RawString == tis[q] && isParseOf(parsedDNs[t].ParsedMap, cutAfter(tis[q], ":"))))
+//@ loop 1 invariant forall(q, 0, rangeindex+1, identityOK(tis[q]))
+//@ loop 1 invariant forall(q, 0, rangeindex+1, tis[q] != "*" && cutBefore(tis[q], ":") == "x509.subject" ==> exists(t, 0, len(parsedDNs), parsedDNs[t].RawString == tis[q] && isParseOf(parsedDNs[t].ParsedMap, cutAfter(tis[q], ":"))))
+//@ loop 1 invariant newsince(parsedDNs)
+
+//@ func validatePolicyCore
+//@ props C09
+//@ ensures[C09.core] result == nil ==> coreOK(name, signatureVerification, trustStores, trustedIdentities)
